@@ -1541,6 +1541,77 @@ int streamCApi(std::istream& in)
   return 0;
 }
 
+// --------------------------------------------------------------------------------------------
+// mt: m user threads run API calls concurrently; every result must equal the result of the same
+//     call made alone beforehand (C14: no hidden shared mutable state between concurrent calls)
+//   op: mt <threads> <rounds> <base>
+// --------------------------------------------------------------------------------------------
+struct MtCall { int kind; uint64_t a, b; };
+
+uint64_t mtRun(const MtCall& c)
+{
+  switch (c.kind)
+  {
+    case 0: return primesieve::count_primes(c.a, c.b);
+    case 1: return primesieve::count_twins(c.a, c.b);
+    case 2: { uint64_t v = 0; try { v = primesieve::nth_prime((int64_t) c.b, c.a); } catch (const std::exception&) { v = 1; } return v; }
+    case 3: { std::vector<uint64_t> v; primesieve::generate_primes(c.a, c.b, &v); uint64_t h = 1469598103934665603ull; for (uint64_t x : v) { h ^= x; h *= 1099511628211ull; } return h + v.size(); }
+    case 4: { primesieve::iterator it(c.a); uint64_t h = 0; for (int i = 0; i < 3000; i++) h = h * 31 + it.next_prime(); for (int i = 0; i < 1500; i++) h = h * 31 + it.prev_prime(); return h; }
+    case 5: { primesieve_iterator it; primesieve_init(&it); primesieve_jump_to(&it, c.a, c.b); uint64_t h = 0; for (int i = 0; i < 2000; i++) h = h * 31 + primesieve_next_prime(&it); primesieve_free_iterator(&it); return h; }
+    default: { uint64_t v = primesieve::count_sextuplets(c.a, c.b); return v; }
+  }
+}
+
+int streamMt(std::istream& in)
+{
+  std::string line;
+  while (std::getline(in, line))
+  {
+    auto t = split(line);
+    if (t.empty() || t[0][0] == '#')
+      continue;
+    if (t[0] != "mt" || t.size() < 4) { std::cerr << "bad op: " << line << "\n"; return 2; }
+    int m = atoi(t[1].c_str()), rounds = atoi(t[2].c_str());
+    uint64_t base = u64(t[3]);
+    primesieve::set_num_threads(2);          // the calls spawn their own workers, too
+    primesieve::set_sieve_size(32);
+    // the work list of thread i, round r
+    auto call = [&](int i, int r) {
+      uint64_t x = base + (uint64_t) i * 1000003ull + (uint64_t) r * 7919ull;
+      MtCall c;
+      c.kind = (i + r) % 7;
+      c.a = x;
+      c.b = (c.kind == 2) ? (uint64_t) (50 + (i * 13 + r * 7) % 400) : x + 30000 + (uint64_t) ((i * 31 + r * 17) % 50000);
+      if (c.kind == 0 && (r % 3) == 0) c.b = x + 25000000;       // long enough for two worker threads
+      return c;
+    };
+    std::vector<std::vector<uint64_t>> solo(m, std::vector<uint64_t>(rounds)), conc(m, std::vector<uint64_t>(rounds));
+    for (int i = 0; i < m; i++)
+      for (int r = 0; r < rounds; r++)
+        solo[i][r] = mtRun(call(i, r));
+    std::vector<std::thread> ths;
+    for (int i = 0; i < m; i++)
+      ths.emplace_back([&, i] { for (int r = 0; r < rounds; r++) conc[i][r] = mtRun(call(i, r)); });
+    for (auto& th : ths) th.join();
+    int bad = 0; std::string first;
+    for (int i = 0; i < m; i++)
+      for (int r = 0; r < rounds; r++)
+        if (solo[i][r] != conc[i][r])
+        {
+          if (!bad) { MtCall c = call(i, r); first = "thread " + std::to_string(i) + " round " + std::to_string(r) + " kind " + std::to_string(c.kind) + " a=" + std::to_string(c.a) + " b=" + std::to_string(c.b); }
+          bad++;
+        }
+    uint64_t h = 0;
+    for (int i = 0; i < m; i++) for (int r = 0; r < rounds; r++) h = h * 1000003ull + solo[i][r];
+    std::cout << line << " => calls=" << m * rounds << " digest=" << h;
+    if (bad) std::cout << " ORACLE-MISMATCH " << bad << " concurrent calls returned something else than alone; first: " << first;
+    std::cout << "\n";
+  }
+  primesieve::set_num_threads(1 << 20);
+  primesieve::set_sieve_size(256);
+  return 0;
+}
+
 } // namespace
 
 int main(int argc, char** argv)
@@ -1584,6 +1655,8 @@ int main(int argc, char** argv)
     return streamPreSieve(in);
   if (stream == "capi")
     return streamCApi(in);
+  if (stream == "mt")
+    return streamMt(in);
   if (stream == "cross")
     return streamCross(in);
   if (stream == "cli")
